@@ -156,6 +156,51 @@ Theorem C07_avg_float32_refuted :
 Proof. exact avg_float32_refuted. Qed.
 Print Assumptions C07_avg_float32_refuted.
 
+(* (6) non-finite voxels on the float32 path (float32 -> float64, pairwise
+   averaging z, y, x with padding, float64 -> float32).  The contributors of an
+   output voxel are the padded reads of the chunk converted to float64 over its
+   block (one of the 2^k pairings, k = number of halved axes).  If all of them
+   are the same infinity the voxel is that infinity; if one of them is NaN the
+   voxel is NaN.  An outside value c must satisfy half*(c+c) = c (every finite
+   float64 that does not overflow when doubled, and the infinities). *)
+Theorem C07_average_nonfinite : forall o fs nc nz ny nx (a : arr4 num) c z y x,
+  check_factors_avg fs = true -> rect4 nc nz ny nx a ->
+  (forall c0, o = Some c0 -> favg c0 c0 = c0) ->
+  c < nc -> z < cdiv nz (fac fs 2) -> y < cdiv ny (fac fs 1) -> x < cdiv nx (fac fs 0) ->
+  exists out, avg_model F32 o fs a = Ok out /\
+    (forall s,
+       (forall dz dy dx, dz < fac fs 2 -> dy < fac fs 1 -> dx < fac fs 0 ->
+          contributor o nz ny nx a c (z * fac fs 2 + dz) (y * fac fs 1 + dy) (x * fac fs 0 + dx)
+          = S754_infinity s) ->
+       get4 (NI 0%Z) out c z y x = NF (S754_infinity s)) /\
+    ((exists dz dy dx, dz < fac fs 2 /\ dy < fac fs 1 /\ dx < fac fs 0 /\
+          contributor o nz ny nx a c (z * fac fs 2 + dz) (y * fac fs 1 + dy) (x * fac fs 0 + dx)
+          = S754_nan) ->
+       get4 (NI 0%Z) out c z y x = NF S754_nan).
+Proof. exact average_nonfinite. Qed.
+Print Assumptions C07_average_nonfinite.
+
+(* one averaging step: both infinities give NaN; reading a float32 infinity or
+   NaN gives the same float64 value *)
+Theorem C07_average_opposite_infinities : forall s,
+  favg (S754_infinity s) (S754_infinity (negb s)) = S754_nan.
+Proof. exact favg_inf_opposite. Qed.
+Print Assumptions C07_average_opposite_infinities.
+
+Theorem C07_read_nonfinite : forall x, FloatModel.is_finite x = false -> to_f64 (NF x) = x.
+Proof. exact to_f64_nonfinite. Qed.
+Print Assumptions C07_read_nonfinite.
+
+Example C07_average_nonfinite_example :
+  avg_model F32 None [2; 2; 1]%Z
+    [[[[NF (S754_infinity false); NF (S754_infinity false); NF (S754_infinity true)];
+       [NF (S754_infinity false); NF (S754_infinity false); NF (S754_infinity false)]]]]
+  = Ok [[[[NF (S754_infinity false); NF S754_nan]]]]
+  /\ avg_model F32 (Some (of_Z b64 255)) [2; 1; 1]%Z [[[[NF (S754_infinity true)]]]]
+     = Ok [[[[NF (S754_infinity true)]]]]
+  /\ favg (of_Z b64 255) (of_Z b64 255) = of_Z b64 255.
+Proof. exact average_nonfinite_example. Qed.
+
 (* non-vacuity *)
 Example C07_examples :
   stride_model [2; 1; 1]%Z [[[[1; 2; 3]]]]%Z = Ok [[[[1; 3]]]]%Z /\
